@@ -433,7 +433,9 @@ class HDF5FileSingleton(metaclass=SingleInstancePerFileAttribute):
         self.__keep_open = True
         yield
         self.__keep_open = False
-        self.__close()
+        if self.__file is not None:
+            # The file is not opened when there is no file operation in the context.
+            self.__close()
 
     def __close(self) -> None:
         """Close the file handle."""
